@@ -82,7 +82,7 @@ ASSUMPTIONS = [
 EPS32 = oc.EPS32
 DEG = oc.DEG
 CLASSES = list(common.CELL_KINDS) + ["near90", "neardegenerate", "widelengths", "distinct", "triclinic", "neardegenerate"]
-ROTS = ["random", "random", "identity", "axisperm", "random"]
+ROTS = ["random", "random", "identity", "axisperm", "random", "halfturn", "axisperm-same"]
 NCASES = {"quick": dict(algebra=1200, util=600, history=6000, setters=2), "thorough": dict(algebra=8400, util=3000, history=30000, setters=3)}
 NCELL = 24
 
@@ -170,6 +170,13 @@ def gen_cases(tier, seed):
 # ------------------------------------------------------------------------------------------------ part A
 def _rotations(rng, kind, n):
     R = np.zeros((n, 3, 3))
+    if kind in ("halfturn", "axisperm-same"):
+        # ONE axis rotation for the whole trajectory (the same re-orientation of every frame): a half turn about x, y or z
+        # keeps a rectangular cell's vectors on the coordinate axes, two of them pointing the negative way
+        S = np.diag([(1, -1, -1), (-1, 1, -1), (-1, -1, 1)][int(rng.integers(3))]).astype(float)
+        P = np.eye(3) if kind == "halfturn" else np.eye(3)[list([(0, 1, 2), (1, 2, 0), (2, 0, 1)][int(rng.integers(3))])]
+        R[:] = P @ S
+        return R
     for f in range(n):
         if kind == "identity":
             R[f] = np.eye(3)
@@ -306,6 +313,10 @@ def run_algebra(case, ctx):
     ctx.observe("algebra.rotation", case["rot"])
     B = oc.vectors64(L, A)  # the generated (float64) cell
     W = np.einsum("nij,nkj->nik", B, R)  # rows rotated: w_i = R b_i
+    if case["rot"] != "random":
+        # an axis-aligned description as a program would write it down: exact zeros, not the 1e-17 that cos(90 degrees)
+        # leaves behind (a change of the cell far below every tolerance used here)
+        W[np.abs(W) < 1e-13 * np.abs(W).max(axis=(1, 2), keepdims=True)] = 0.0
     D0 = oc.gram_D(A)
     closed0 = oc.closed_volume(L, A)
     for tag, Wd in (("rot64", W), ("rot32", W.astype(np.float32))):
